@@ -59,35 +59,35 @@ def main(tier, seed, replay=None):
                         ex = {"config": name, "execmodel": em, "program_seed": ps}
                         ck.case((name, em, ps), nontrivial=True)
                         ck.count("config_" + name)
-                        try:
-                            gw = mk()
-                        except Exception as e:  # noqa
-                            ck.fail("worker-does-not-come-up:" + name, {**ex, "error": repr(e)[:300]})
+                        st, gw = X.with_timeout(mk, 40)
+                        if st != "ok":
+                            ck.fail("worker-does-not-come-up:" + name, {**ex, "error": "timeout after 40 s" if st == "timeout" else repr(gw)[:300]})
                             continue
-                        try:
+
+                        def work(gw=gw):
                             imp, loaded = X.execnet_presence(gw)
-                            if importable is False and imp:
-                                ck.broke("correspondence", "bare-interpreter-can-import-execnet:" + name, ex)
-                            if importable is not None and loaded:
-                                ck.fail("worker-from-source-has-execnet-modules-loaded:" + name, {**ex, "loaded": loaded})
-                            tr = X.run_programs(gw, random.Random(ps), light=(tier == "quick"))
-                        except Exception as e:  # noqa
-                            ck.fail("worker-from-source-fails:" + name, {**ex, "error": repr(e)[:300]})
+                            return imp, loaded, X.run_programs(gw, random.Random(ps), light=(tier == "quick"))
+
+                        st, val = X.with_timeout(work, 120)
+                        if st != "ok":
+                            ck.fail("worker-from-source-fails:" + name, {**ex, "error": "timeout after 120 s" if st == "timeout" else repr(val)[:300]})
                             continue
+                        imp, loaded, tr = val
+                        if importable is False and imp:
+                            ck.broke("correspondence", "bare-interpreter-can-import-execnet:" + name, ex)
+                        if importable is not None and loaded:
+                            ck.fail("worker-from-source-has-execnet-modules-loaded:" + name, {**ex, "loaded": loaded})
                         ex["importable_remotely"] = imp
                         if tr != base:
                             diffs = [(a, b) for a, b in zip(base, tr) if a != b][:3]
                             ck.fail("transcript-differs-from-import-bootstrapped-worker:%s:%s" % (name, diffs[0][0][0] if diffs else "length"), {**ex, "diffs": repr(diffs)[:1500]})
-                        st = gw.remote_status()
-                        if st.execmodel != em:
-                            ck.fail("remote-execmodel-not-as-requested:" + name, {**ex, "got": st.execmodel})
+                        st2, rs = X.with_timeout(gw.remote_status, 30)
+                        if st2 == "ok" and rs.execmodel != em:
+                            ck.fail("remote-execmodel-not-as-requested:" + name, {**ex, "got": rs.execmodel})
                     if rd == 0:
                         ck.sample({"execmodel": em, "baseline_transcript": repr(base)[:1200]})
                 finally:
-                    try:
-                        group.terminate(timeout=3)
-                    except Exception:  # noqa
-                        pass
+                    X.with_timeout(lambda: group.terminate(timeout=3), 30)
                     for s in servers:
                         s.stop()
     finally:
